@@ -1,9 +1,12 @@
 mod enumerate;
+mod dml;
 mod explore;
 mod exprparse;
 mod lex;
 mod props;
+mod qmodel;
 mod report;
+mod smodel;
 mod sqlite;
 mod util;
 
